@@ -6,6 +6,8 @@ import (
 	"strconv"
 	"strings"
 	"sync"
+	"sync/atomic"
+	"time"
 
 	"github.com/hashicorp/serf/cmd/serf/command/agent"
 )
@@ -112,6 +114,15 @@ func c29Gen(rng *rand.Rand, tier string) []Case {
 		out = append(out, Case{ID: fmt.Sprintf("rr%d", i), Ops: []string{fmt.Sprintf("grounds %d %d %d", 3+rng.Intn(6), 3000, rng.Int63())},
 			Nontrivial: true, Tags: []string{"gated-rounds"}})
 	}
+	// a monitor attaches while another goroutine logs: ring sizes below, at and above the number of buffered lines
+	for i, ck := range [][2]int{{1, 1}, {4, 2}, {4, 4}, {4, 9}, {512, 5}, {3, 64}} {
+		out = append(out, Case{ID: fmt.Sprintf("la%d", i), Ops: []string{fmt.Sprintf("lconc %d %d", ck[0], ck[1])},
+			Nontrivial: true, Tags: []string{"logwriter-attach-race"}})
+	}
+	for i := 0; i < nConc/2; i++ {
+		out = append(out, Case{ID: fmt.Sprintf("lb%d", i), Ops: []string{fmt.Sprintf("lconc %d %d", 1+rng.Intn(12), 1+rng.Intn(24))},
+			Nontrivial: true, Tags: []string{"logwriter-attach-race"}})
+	}
 	for i := 0; i < nConc; i++ {
 		out = append(out, Case{ID: fmt.Sprintf("c%d", i),
 			Ops:        []string{fmt.Sprintf("gconc %d %d %d %d", 2+rng.Intn(7), 20+rng.Intn(200), 20+rng.Intn(200), rng.Int63())},
@@ -153,6 +164,14 @@ func c29Exec(ops []string) []string {
 			w, _ := strconv.Atoi(f[1])
 			rounds, _ := strconv.Atoi(f[2])
 			outs = append(outs, c29Rounds(w, rounds))
+		case len(f) == 3 && f[0] == "lconc":
+			c, e1 := strconv.Atoi(f[1])
+			k, e2 := strconv.Atoi(f[2])
+			if e1 != nil || e2 != nil || c < 1 || k < 1 || k > 64 {
+				outs = append(outs, "bad-op")
+				continue
+			}
+			outs = append(outs, c29AttachRace(c, k))
 		case len(f) == 2 && f[0] == "lnew":
 			c, err := strconv.Atoi(f[1])
 			if err != nil || c < 1 {
@@ -201,6 +220,50 @@ func c29Exec(ops []string) []string {
 		}
 	}
 	return outs
+}
+
+// c29SlowHandler pauses inside its first HandleLog call until another goroutine's Write has returned (or 30 ms
+// have passed: on a log writer that holds its lock while it replays the backlog that Write cannot return).
+type c29SlowHandler struct {
+	c29Handler
+	first      int32
+	started    chan struct{}
+	writerDone chan struct{}
+}
+
+func (h *c29SlowHandler) HandleLog(l string) {
+	if atomic.CompareAndSwapInt32(&h.first, 0, 1) { // only the first call pauses; concurrent calls pass
+		close(h.started)
+		select {
+		case <-h.writerDone:
+		case <-time.After(30 * time.Millisecond):
+		}
+	}
+	h.c29Handler.HandleLog(l)
+}
+
+// c29AttachRace: k lines are logged, then a monitor attaches while another goroutine logs one more line.  That
+// line was written after every buffered one, so the monitor must not see it before any of them.
+func c29AttachRace(c, k int) string {
+	lw := agent.NewLogWriter(c)
+	for i := 0; i < k; i++ {
+		_, _ = lw.Write([]byte(fmt.Sprintf("o%d\n", i)))
+	}
+	h := &c29SlowHandler{started: make(chan struct{}), writerDone: make(chan struct{})}
+	go func() {
+		<-h.started
+		_, _ = lw.Write([]byte("new\n"))
+		close(h.writerDone)
+	}()
+	lw.RegisterHandler(h)
+	select {
+	case <-h.writerDone:
+	case <-time.After(5 * time.Second):
+		return "stuck"
+	}
+	h.mu.Lock()
+	defer h.mu.Unlock()
+	return c29Show(h.lines)
 }
 
 // c29Conc: w writers write n1 lines each (phase 1, all Writes return before Flush is
@@ -302,7 +365,7 @@ func init() {
 	register(&Prop{
 		ID: "C29",
 		Rule: "sequential op sequences on a real GatedWriter (write/flush/read-output) and a real logWriter (capacity 1-5; write/register/deregister/read handler), " +
-			"plus free-running concurrent GatedWriter runs (2-8 writers, two phases around the gate opening); non-trivial = a write after the gate opened, a registration after the ring wrapped, or a concurrent run; distinct = distinct op sequence",
+			"plus free-running concurrent GatedWriter runs (2-8 writers, two phases around the gate opening) and monitor-attach races on the logWriter (a handler that pauses inside its first backlog line while another goroutine logs; ring sizes 1-512, 1-64 buffered lines); non-trivial = a write after the gate opened, a registration after the ring wrapped, or a concurrent run; distinct = distinct op sequence",
 		Gen:  c29Gen,
 		Exec: c29Exec,
 	})
